@@ -118,6 +118,10 @@ impl ScriptedClock {
 // JSON helpers
 // ---------------------------------------------------------------------------------------------
 pub fn rat(v: &Value) -> f64 {
+    // a plain JSON number is accepted too (recorder-side parameters are arbitrary floats)
+    if let Some(x) = v.as_f64() {
+        return x;
+    }
     let n = v[0].as_i64().expect("rat num") as f64;
     let d = v[1].as_i64().expect("rat den") as f64;
     n / d
